@@ -14,6 +14,8 @@ Record ops := mkOps {
   o_progs : list (list pmsg);
   o_oracle : list bool;
   o_sched : list sid;
+  o_throughput : Z;   (* what the dispatcher answers to Throughput(): the mailbox only resets a counter
+                         with it, so the model - and every theorem - is independent of it *)
 }.
 
 (* shared words after a step: userMessages, sysMessages, schedulerStatus=running,
